@@ -54,32 +54,50 @@ __CPROVER_ensures(RET == (parameter->type == SCPI_TOKEN_HEXNUM || parameter->typ
     || parameter->type == SCPI_TOKEN_DECIMAL_NUMERIC_PROGRAM_DATA || (suffixAllowed && parameter->type == SCPI_TOKEN_DECIMAL_NUMERIC_PROGRAM_DATA_WITH_SUFFIX)))
 ;
 
-/* conversions: text at str (inside a NUL-terminated buffer) to a number; result = characters used */
-#define CONV_CONTRACT(fn, T) \
+/* conversions: text at str (inside a NUL-terminated buffer) to a number; result = characters used.
+ * Each is exactly one call of the libc conversion of the right type with the caller's base; the value stored is what that
+ * call returned (narrowed to the target width), the result is the number of characters it used (C04: correct rounding and
+ * whole-literal conversion are then libc's; a float is never obtained by rounding a double). */
+/* gh_conv_zero is a DEFINED ghost: "the most recent conversion used no character".  No code reads or writes it; its defining
+ * clause is part of the contract as callers see it and is left out where the helper itself is enforced (CONV_ENFORCE). */
+/* Text precondition: where a helper is enforced it is the real one - a NUL-bounded text (witness gh_nul).  The callers'
+ * jobs establish only that the literal's first byte is readable: that the parameter buffer is NUL-bounded is established where
+ * SCPI_Input hands a line to SCPI_Parse (dispatch.SCPI_Input) but is NOT carried through the handler and parameter contracts;
+ * this gap is listed as an assumption in the evidence of every job that uses these contracts. */
+#ifdef CONV_ENFORCE
+#define CV_ZERO_DEF 1
+#define CV_STR_PRE(str) (gh_nul <= 4096 && __CPROVER_is_fresh(str, gh_nul + 1) && (str)[gh_nul] == 0)
+#else
+#define CV_ZERO_DEF (gh_conv_zero == (RET == 0))
+#define CV_STR_PRE(str) __CPROVER_is_fresh(str, 1)
+#endif
+#define CV_GHOSTS gh_conv_zero, gh_cv_calls, gh_cv_kind, gh_cv_base, gh_cv_bits, gh_cv_used, gh_cv_f, gh_cv_d
+#define CV_ONE(K) (gh_cv_calls == OLD(gh_cv_calls) + 1 && gh_cv_kind == (K) && RET == gh_cv_used && CV_ZERO_DEF)
+#define CONV_CONTRACT(fn, T, K) \
 size_t fn(const char * str, T * val, int8_t base) \
-__CPROVER_requires(__CPROVER_is_fresh(str, 1) && __CPROVER_is_fresh(val, sizeof(*val))) \
+__CPROVER_requires(CV_STR_PRE(str) && __CPROVER_is_fresh(val, sizeof(*val))) \
 __CPROVER_requires(base == 2 || base == 8 || base == 10 || base == 16) \
-__CPROVER_assigns(*val, gh_conv_zero) \
-__CPROVER_ensures(gh_conv_zero == (RET == 0)) ;
-CONV_CONTRACT(strBaseToInt32, int32_t)
-CONV_CONTRACT(strBaseToUInt32, uint32_t)
-CONV_CONTRACT(strBaseToInt64, int64_t)
-CONV_CONTRACT(strBaseToUInt64, uint64_t)
+__CPROVER_assigns(*val, CV_GHOSTS) \
+__CPROVER_ensures(CV_ONE(K) && gh_cv_base == base && *val == (T) gh_cv_bits) ;
+CONV_CONTRACT(strBaseToInt32, int32_t, CV_STRTOL)
+CONV_CONTRACT(strBaseToUInt32, uint32_t, CV_STRTOUL)
+CONV_CONTRACT(strBaseToInt64, int64_t, CV_STRTOLL)
+CONV_CONTRACT(strBaseToUInt64, uint64_t, CV_STRTOULL)
 size_t strToFloat(const char * str, float * val)
-__CPROVER_requires(__CPROVER_is_fresh(str, 1) && __CPROVER_is_fresh(val, sizeof(*val)))
-__CPROVER_assigns(*val, gh_conv_zero)
-__CPROVER_ensures(gh_conv_zero == (RET == 0)) ;
+__CPROVER_requires(CV_STR_PRE(str) && __CPROVER_is_fresh(val, sizeof(*val)))
+__CPROVER_assigns(*val, CV_GHOSTS)
+__CPROVER_ensures(CV_ONE(CV_STRTOF) && (*val == gh_cv_f || (*val != *val && gh_cv_f != gh_cv_f))) ;
 size_t strToDouble(const char * str, double * val)
-__CPROVER_requires(__CPROVER_is_fresh(str, 1) && __CPROVER_is_fresh(val, sizeof(*val)))
-__CPROVER_assigns(*val, gh_conv_zero)
-__CPROVER_ensures(gh_conv_zero == (RET == 0)) ;
+__CPROVER_requires(CV_STR_PRE(str) && __CPROVER_is_fresh(val, sizeof(*val)))
+__CPROVER_assigns(*val, CV_GHOSTS)
+__CPROVER_ensures(CV_ONE(CV_STRTOD) && (*val == gh_cv_d || (*val != *val && gh_cv_d != gh_cv_d))) ;
 
 /* token class -> base and signedness (C04), failure only if the conversion used no character */
 #define TOVAL_CONTRACT(decl) decl \
 __CPROVER_requires(CTX_ERR_PRE(context) && GH_RANGES && __CPROVER_is_fresh(parameter, sizeof(*parameter))) \
 __CPROVER_requires(value == NULL || __CPROVER_is_fresh(value, sizeof(*value))) \
 __CPROVER_requires(!SCPI_IS_NUMTYPE(parameter->type) || __CPROVER_is_fresh(parameter->ptr, 1)) \
-__CPROVER_assigns(gh_conv_zero, ERRPUSH_FRAME(context); value != NULL: *value) \
+__CPROVER_assigns(CV_GHOSTS, ERRPUSH_FRAME(context); value != NULL: *value) \
 __CPROVER_ensures(CTX_ERR_POST(context)) \
 __CPROVER_ensures(value == NULL ==> (!RET && PUSHED_ONE(context, SCPI_ERROR_SYSTEM_ERROR))) \
 __CPROVER_ensures(value != NULL ==> NO_PUSH(context)) \
@@ -103,7 +121,7 @@ TOVAL_CONTRACT(scpi_bool_t SCPI_ParamToDouble(scpi_t * context, scpi_parameter_t
  *   for integer readers given a decimal that starts with '.', see known_findings.txt). */
 #define READER_CLAUSES(OUT_NULL) \
 __CPROVER_requires(CTX_PARAM_PRE(context)) \
-__CPROVER_assigns(gh_conv_zero, PARAM_FRAME(context)) \
+__CPROVER_assigns(CV_GHOSTS, PARAM_FRAME(context)) \
 __CPROVER_ensures(P_MONO(context) && QINV(EQ(context)) && QSAME(EQ(context)) && COH_REGS(context) && COH_QMA(context)) \
 __CPROVER_ensures((OUT_NULL) ==> (!RET && P_UNMOVED(context) && PUSHED_ONE(context, SCPI_ERROR_SYSTEM_ERROR))) \
 __CPROVER_ensures(RET ==> (NO_PUSH(context) && context->input_count == OLD(context->input_count) + 1)) \
